@@ -23,10 +23,12 @@ VALS = gen.DEFAULT_NOTE_VALUES
 
 def make_case(rng, i, tier):
     q = rng.random() < 0.5
-    pc = gen.piece(rng, lens=VALS if q else None, multi_channel=True, ragged=True,
+    pc = gen.piece(rng, ntracks=rng.randint(1, 4), lens=VALS if q else None, multi_channel=True, ragged=True,
+                   sigs=[(4, 4), (3, 4), (6, 8), (2, 4), (5, 4), (2, 2), (7, 8), (12, 8), (5, 8), (7, 4), (9, 8), (3, 2), (1, 4), (11, 8),
+                         (4, 2), (3, 16), (15, 16), (1, 2), (1, 1)],
                    ongrid=(lambda x: x % 4 == 0 or x % 6 == 0) if (q and rng.random() < 0.5) else None)
     # make sure the meta track reaches far enough often (signatures beyond its end are still on its list)
-    safe = ("normalise", "copy", "read_abs", "read_rel", "iter_rel_velocity_edit", "iter_abs_velocity_edit", "set_channel", "transpose", "merge_empty", "qnl")
+    safe = ("touch_defaults", "normalise", "copy", "read_abs", "read_rel", "iter_rel_velocity_edit", "iter_abs_velocity_edit", "set_channel", "transpose", "merge_empty", "qnl")
     prefixes = [[op for op in random_prefix(rng, n=(1, 2)) if op["op"] in safe and not (op["op"] == "qnl" and not q)] if i % 4 == 3 else [] for _ in pc["tracks"]]
     return {"piece": pc, "quantise": q, "prefixes": prefixes}
 
